@@ -519,6 +519,40 @@ impl C07 {
         if rng.chance(1, 2) && !bytes.is_empty() {
             bytes.truncate(rng.usize_below(bytes.len() + 1));
         }
+        // accessors that report a length error of their own: Ipv4Header(Slice)::payload_len()
+        if s.gen == "Ipv4Header" && bytes.len() >= 20 {
+            use etherparse::{err, Ipv4Header, Ipv4HeaderSlice, LenSource};
+            let r = shell::guarded(|| {
+                let a = Ipv4HeaderSlice::from_slice(&bytes).ok().map(|h| h.payload_len());
+                let b = Ipv4Header::from_slice(&bytes).ok().map(|(h, _)| h.payload_len());
+                (a, b)
+            });
+            if let Ok((a, b)) = r {
+                let ihl4 = 4 * (bytes[0] & 0x0f) as usize;
+                let total = u16::from_be_bytes([bytes[2], bytes[3]]) as usize;
+                // RFC 791: the total length counts the header; a smaller value is the self-describing
+                // report of appendix A (required = the header's size, len = the field's value)
+                let want: Result<u16, err::LenError> = if total >= ihl4 {
+                    Ok((total - ihl4) as u16)
+                } else {
+                    Err(err::LenError { required_len: ihl4, len: total, len_source: LenSource::Ipv4HeaderTotalLen, layer: err::Layer::Ipv4Packet, layer_start_offset: 0 })
+                };
+                for (door, got) in [("Ipv4HeaderSlice::payload_len", a), ("Ipv4Header::payload_len", b)] {
+                    if let Some(got) = got {
+                        rep.evals += 1;
+                        if got != want {
+                            rep.violation(
+                                &format!("untruthful|{}|accessor", door),
+                                format!("{}: IHL*4 = {}, total length {}: {:?}, truthful is {:?}", door, ihl4, total, got, want),
+                                &bytes,
+                            );
+                        } else {
+                            rep.count(if want.is_ok() { "accessor_len.ok" } else { "accessor_len.truthful_error" });
+                        }
+                    }
+                }
+            }
+        }
         rep.evals += 1;
         rep.count(&format!("entry.{}", s.name));
         shell::progress_entry(700 + si as u64);
@@ -558,6 +592,18 @@ impl Monitor for C07 {
     }
 
     fn run_case(&mut self, engine: &str, idx: u64, rng: &mut Prng, rep: &mut Report) {
+        self.run_engine(engine, idx, rng, rep);
+        // the message of every 4th length error that was observed (whatever the door)
+        let (fault, checked) = crate::observe::take_len_text_fault();
+        rep.add("len_error_messages_checked", checked);
+        if let Some((what, text)) = fault {
+            rep.violation(&format!("message|{}", what), format!("the message of a length error does not describe its fields ({}): {:?}", what, text), &[]);
+        }
+    }
+}
+
+impl C07 {
+    fn run_engine(&mut self, engine: &str, idx: u64, rng: &mut Prng, rep: &mut Report) {
         match engine {
             "corpus" => match gen::corpus::case(idx, rng) {
                 Some(mut case) => {
